@@ -83,6 +83,8 @@ def run(ctx):
     # the block is executed whenever a damping time is set, before the parent initialize
     ctrl = controlling(md, c_stmts["self.langevin_c1"])
     conds = [(norm(a).replace(" ", ""), pol) for a, pol, _ in ctrl]
+    # `x is None` failing is the same condition as `x is not None` holding (guard clause / nested form)
+    conds = [("self.dampisnotNone", not pol) if t == "self.dampisNone" else (t, pol) for t, pol in conds]
     ctx.check(conds == [("self.dampisnotNone", True)], "R1", md, c_stmts["self.langevin_c1"],
               "Molecular_Dynamics_Langevin.initialize", "if self.damp is not None", "coefficients are recomputed on every initialize() whenever a damping time is set",
               f"thermostat coefficients are computed under {conds} rather than exactly `self.damp is not None`: a later run on the same "
